@@ -502,7 +502,7 @@ Proof.
   eapply npost0_bind; [apply np_push; [exact W5|exact I]|]. intros u s6 W6 G6 _.
   assert (Hip6 : ipge s6).
   { assert (G : grow s s6) by gr. destruct G as [_ G]. apply G, Hip. }
-  unfold bindM, dec_ip. unfold ipge in Hip6. destruct (snd (ip s6) =? 0) eqn:E0.
+  unfold bindM, dec_ip. destruct Hip6 as [Hip6 _]. destruct (snd (ip s6) =? 0) eqn:E0.
   { apply N.eqb_eq in E0. lia. }
   unfold ret. cbn [npost0]. split; [apply wfm_with_ip, W6|]. split; [apply grow0_with_ip|].
   exists p. split; [reflexivity|].
